@@ -49,6 +49,39 @@ add("C05",
     "obligations for buffering nodes that extend the result to histories of any length.",
     SYNC_NOTE + " Holder convention = the one fixed by the existing tests.")
 
+ASYNC_NOTE = ("Schedules (which external action happens next: a producer emits, the oldest or second-oldest pending "
+              "consumer job completes, the clock jumps to the next timer) are symbolic and decided lazily by solver forks; "
+              "payloads are opaque tokens. Template list, schedule length and element counts are in the evidence. "
+              "Callbacks made ready in one loop iteration run FIFO (asyncio semantics) is assumed.")
+
+add("C02",
+    "CrossHair/z3 exploration of all bounded schedules over the real asynchronous nodes (buffer, delay, rate_limit, "
+    "map_async, timed_window, partition(timeout), zip, union, sinks) on a virtual event loop; delivery log compared "
+    "with the synchronous semantics at quiescence",
+    "Bounded model checking over schedules: every interleaving of emissions, consumer completions (incl. out of order) "
+    "and timer expirations up to the stated length is explored on the real code; CONFIRMED = schedule tree exhausted.",
+    ASYNC_NOTE)
+
+add("C03",
+    "same schedule exploration; wait / bound / wake-up clauses evaluated after every step; blocking emit via a "
+    "cooperative model of threading.Event",
+    "Bounded model checking over schedules of the back-pressure clauses for every bound n in {1,2,3}.",
+    ASYNC_NOTE + " Known finding: map_async runs parallelism+1 jobs (pinned by the existing tests).")
+
+add("C04",
+    "same schedule exploration with instrumented real RefCounters; after every step a counter at zero must belong to "
+    "a completely handled element; violations classified by releasing function / template / phase",
+    "Bounded model checking over schedules; each early release is identified by its call site so that known "
+    "design-level findings do not mask new ones.",
+    ASYNC_NOTE)
+
+add("C16",
+    "CrossHair/z3-driven exploration of fault masks (one symbolic bit per user-function invocation) over real "
+    "synchronous pipelines, against a reference interpreter that aborts the failing push at the raising node",
+    "Bounded model checking over fault sequences: every subset of failing invocations within the mask length, "
+    "every key-value pattern, for each pipeline shape.",
+    SYNC_NOTE)
+
 add("C14",
     "CrossHair/z3 exploration of all schedules (arrival vs consumer completion) over the real latest() code on the virtual loop",
     "Bounded symbolic model checking: every interleaving of up to the stated number of arrivals and consumer completions is explored (solver forks at every schedule choice); CONFIRMED means the path tree was exhausted.",
